@@ -1303,3 +1303,85 @@ pub fn xform_case(inp: &Input, variant: &str) -> Value {
            "code_section_start": em.xform.code_section_start, "out_code_at": outm.code_at, "nfuncs_out": entries.len(),
            "ranges": ranges, "out_entries": entries, "npairs": em.xform.instruction_map.len(), "stray_pairs": stray, "funcs": funcs})
 }
+
+// ---- DWARF (C10) --------------------------------------------------------------------------------
+
+fn norm_rows(rows: Vec<Value>) -> Vec<Value> {
+    rows.into_iter()
+        .map(|r| {
+            let a: u64 = r["addr"].as_str().unwrap_or("0").parse().unwrap_or(0);
+            let line = r["line"].as_u64().unwrap_or(0);
+            json!({"addr": if a <= 0x7fff_ffff { a as i64 } else { -1 }, "tomb": a == 0xFFFF_FFFF, "line": line,
+                   "fi": if line > 0 { ((line - 1) / crate::dwarf::LINE_STRIDE) as i64 } else { -1 }, "k": if line > 0 { ((line - 1) % crate::dwarf::LINE_STRIDE) as i64 + 1 } else { 0 },
+                   "col": r["col"], "file": r["file"], "stmt": r["stmt"], "end": r["end"]})
+        })
+        .collect()
+}
+fn norm_subs(subs: Vec<Value>) -> Vec<Value> {
+    subs.into_iter()
+        .map(|r| {
+            let low: i64 = r["low"].as_str().unwrap_or("-1").parse().unwrap_or(-1);
+            let len: i64 = r["len"].as_str().unwrap_or("-1").parse().unwrap_or(-1);
+            let name = r["name"].as_str().unwrap_or("").to_string();
+            json!({"name": name, "fi": name.trim_start_matches('f').parse::<i64>().unwrap_or(-1), "low": if low <= 0x7fff_ffff { low } else { -1 }, "tomb": low == 0xFFFF_FFFF, "len": if len <= 0x7fff_ffff { len } else { -1 }})
+        })
+        .collect()
+}
+
+pub fn dwarf_case(inp: &Input, version: u16, spanning: bool, variant: &str) -> Option<Value> {
+    let with = crate::dwarf::attach(&inp.bytes, crate::dwarf::DwarfOpts { version, spanning })?;
+    let id = format!("{}~v{}{}~{}", inp.id, version, if spanning { "span" } else { "" }, variant);
+    let src = format!("dwarf:{}:v{}:{}:{}", inp.source, version, spanning, variant);
+    let cfg = Cfg { dwarf: true, xform: true, probe: true, ..Default::default() };
+    let parsed = match run::parse(&with, &cfg) {
+        Ok(p) => p,
+        Err(e) => return Some(json!({"id": id, "source": src, "outcome": format!("parse-{}", e)})),
+    };
+    let mut module = parsed.module;
+    let maps = parsed.maps;
+    match variant {
+        "gc" => {
+            if let Err(e) = run::gc(&mut module) {
+                return Some(json!({"id": id, "source": src, "outcome": format!("gc-{}", e)}));
+            }
+        }
+        "edited" => {
+            insert_marked_instructions(&mut module, inp.bytes.len() as u64);
+        }
+        _ => {}
+    }
+    let em = match run::emit(&mut module, true) {
+        Ok(e) => e,
+        Err(e) => return Some(json!({"id": id, "source": src, "outcome": format!("emit-{}", e), "version": version, "spanning": spanning, "variant": variant})),
+    };
+    let sigma = run::sigma(&maps, &em.emit);
+    let inm = absmod::project(&with).unwrap_or_default();
+    let outm = absmod::project(&em.bytes).unwrap_or_default();
+    let (in_rows, in_subs) = crate::dwarf::read_back(&with).unwrap_or_default();
+    let (out_rows, out_subs, read_err) = match crate::dwarf::read_back(&em.bytes) {
+        Ok((r, s)) => (r, s, String::new()),
+        Err(e) => (vec![], vec![], e),
+    };
+    // per kept function: input operator position (1-based) -> output operator position, from the code transform
+    let mut fmap = vec![];
+    for f in inm.funcs.iter() {
+        let fo = sigma.func.get(f.idx as usize).copied().unwrap_or(-1);
+        let mut m: Vec<i64> = vec![0; f.ops.len()];
+        if !f.imported && fo >= 0 {
+            if let Some(of) = outm.funcs.get(fo as usize) {
+                let out_pos: std::collections::HashMap<u32, usize> = of.ops.iter().enumerate().map(|(k, o)| (o.at, k + 1)).collect();
+                let in_pos: std::collections::HashMap<u32, usize> = f.ops.iter().enumerate().map(|(k, o)| (o.at, k + 1)).collect();
+                for (loc, off) in em.xform.instruction_map.iter() {
+                    if let (Some(i), Some(j)) = (in_pos.get(loc), out_pos.get(off)) {
+                        m[*i - 1] = *j as i64;
+                    }
+                }
+            }
+        }
+        fmap.push(json!({"fi": f.idx, "fo": fo, "imported": f.imported, "map": m}));
+    }
+    Some(json!({"id": id, "source": src, "outcome": "ok", "version": version, "spanning": spanning, "variant": variant, "read_error": read_err,
+        "out_valid": absmod::validate(&em.bytes).is_ok(),
+        "in_layout": crate::dwarf::layout(&inm), "out_layout": crate::dwarf::layout(&outm), "fmap": fmap,
+        "in_rows": norm_rows(in_rows), "out_rows": norm_rows(out_rows), "in_subs": norm_subs(in_subs), "out_subs": norm_subs(out_subs)}))
+}
